@@ -16,7 +16,8 @@ PROP = {'lean': 'MpsProps.C13',
               'Mps.C13.multiply_correct_of_setup',
               'Mps.C13.multiply_correct',
               'Mps.C13.multiply_single_alteration',
-              'Mps.C13.additive_mask_loop_range'],
+              'Mps.C13.additive_mask_loop_in_range',
+              'Mps.C13.additive_mask_loop_range_old'],
  'generated': ['Mps.C13.gen_params',
                'Mps.C13.gen_extConsts',
                'Mps.C13.gen_bitAt',
@@ -68,7 +69,7 @@ PROP = {'lean': 'MpsProps.C13',
                'alteration of each of the seven OT messages judged {error | still-correct product}.',
  'level_note': 'Trusted: Lean kernel; translator; harness+diff. Modelled not verified: Go semantics of the transcribed loops (tied by the statement '
                'tables and the bit-exact differential); the Schnorr proof of the setup message (C10); statistical soundness of the KOS check against '
-               'multi-field cheating is not claimed. Findings recorded (known-findings.jsonl): AdditiveOTReceiver.Round2 mis-indexes its masking '
-               'loops (honest batches <= 32 and truncated / nil pads panic), RCheck / CombinedPads lengths and nil message parts are used unchecked '
-               '(panics), and every Fork of package ot passes Bytes: nil, which BytesWithDomain.WriteTo refuses, so none of the four domain strings '
-               'is ever hashed (the model transcribes this; bit-exact agreement confirms it).'}
+               'multi-field cheating is not claimed. Repaired by /repo commit eab5a8f (found by this check): AdditiveOTReceiver.Round2 mis-indexed its masking '
+               'loops (honest batches <= 32 and truncated / nil pads panicked; witness additive_mask_loop_range_old), RCheck / CombinedPads lengths and nil message parts were used '
+               'unchecked. Observation (documented in DESIGN.md, not a C13 violation): every Fork of package ot passes Bytes: nil, which BytesWithDomain.WriteTo refuses, so none of the four '
+               'domain strings is ever hashed (the model transcribes this; bit-exact agreement confirms it).'}
